@@ -52,6 +52,16 @@ add("C17", "exploration",
     "trusted: reference pool model, the inserted yield points are the interleaving granularity (races inside a function body between two yield points are not schedulable), goleveldb/gmap/lru run real but are not under test",
     "deterministic simulation: op histories vs reference pool; seeded interleavings at inserted yield points; porcupine on recorded histories")
 
+add("C07", "exploration",
+    "a booted real node with its ingress handlers receives honestly signed native and EIP-155 wrapped transactions, and the same transactions tampered by exactly one mutation (substitution of each authenticated field with or without recomputed hash, signature r/s/v bit flips, spliced signature, single bit flips of the marshalled bytes, outer-field substitutions and inner RLP re-encodings under the original signature) through the peer-to-peer receive path, the client write topic and both branches of the queued write handler, handler goroutines running as tasks of the seeded scheduler. Exact oracle at quiescence: the pending pool equals the honestly signed transactions that were delivered intact. Sampling, not proof.",
+    "trusted: harness key material and the mutation generator (never produces the ECDSA twin); unauthenticated fields are not mutated; gate/websocket layer stubbed (bytes injected at handleMessage)",
+    "deterministic simulation: Byzantine transport (tamper fault) on every ingress path + exact admission oracle")
+
+add("C09", "exploration",
+    "every block, header, transaction and group the simulated node produces or parses crosses the real codecs (marshal -> parse -> re-hash and re-marshal; store -> reload; relay to another incarnation), edge-valued in-memory objects must reach a fixed point after one pass, and a corrupting transport (bit flips, truncation, extension, removal of one optional protobuf field, random bytes) feeds every exported parser and the node's receive path (NewBlockMsg, ReqTransactionMsg, TransactionGotMsg handlers as scheduler tasks); any panic is a violation and an intact block must still be processed afterwards. Sampling, not proof.",
+    "trusted: golang/protobuf, the stub ConsensusHelper performs the structural header checks of the real one (hash, parent hash) but accepts group signatures; consensus decoders run under the handler's recover() and the sync processor is not started: neither is driven",
+    "deterministic simulation: codec hops on simulated transport/disk + transport corruption faults; panic-free and hash-stability oracles")
+
 add("C19", "fault_enumeration",
     "seeded histories of AddGroup (valid and three kinds of invalid), remove-last-group, remove-then-different-group and restart on a booted real node; the invariant (linked list from genesis, count, height index below and above count, by-id retrieval, removed groups gone, sync successors) is checked against a slice model on the live node after every operation and - exhaustively per history - on a fresh incarnation booted from the disk image taken after every operation. Crash points inside an operation are booted too but only reported as probes (outside the property's quantifier).",
     "trusted: simulated storage under real goleveldb (completed writes survive), stub ConsensusHelper.CheckGroup, in-process restart (singletons reset through in-package drivers)",
